@@ -257,6 +257,11 @@
             "{% block blk %}{{ a }}{% set inblock = 1 %}{% endblock %}{{ inblock }}", "{% macro m(p, q=d) %}{{ p }}{{ g }}{% endmacro %}{{ m(1) }}{{ p }}", "{% macro m(p=p) %}{{ p }}{% endmacro %}{{ m() }}",
             "{% macro w() %}{{ caller() }}{% endmacro %}{% call w() %}{{ inbody }}{% endcall %}", "{% macro w() %}{{ caller(1) }}{% endmacro %}{% call(cp) w() %}{{ cp }}{% endcall %}{{ cp }}",
             "{% do a(b) %}", "{{ a }}{% set a = 1 %}{{ a }}", "{% for i in items %}{% set acc = i %}{% endfor %}{{ acc }}", "{% with %}{% set inw = 1 %}{% endwith %}{{ inw }}",
+            // attribute targets inside unpacking targets (the namespace is read), nested unpacking, inside loops and macros
+            "{% set ns1.a, b1 = 1, 2 %}{{ b1 }}", "{% for x in pair %}{% set ns2.last, y2 = x, x %}{{ y2 }}{% endfor %}", "{% set ns3.lo, other3.hi = pair %}",
+            "{% set (a4, ns4.b), c4 = nested %}{{ a4 }}{{ c4 }}", "{% macro mm5() %}{% set ns5.a, b5 = 1, 2 %}{{ b5 }}{% endmacro %}{{ mm5() }}", "{% set ns6.a %}body{% endset %}",
+            "{% set a7, (b7, (c7, ns7.d)) = deep %}{{ c7 }}", "{% with %}{% set ns8.a, b8 = pair %}{% endwith %}{{ b8 }}", "{% for i in items %}{% for j in items %}{% set q9, ns9.z = i, j %}{% endfor %}{% endfor %}",
+            "{% set ns10.a = ns10.a + other10 %}", "{% set ns11.a, ns11.b = ns12.c, other11 %}",
             "{{ namespace(x=a).x }}", "{% set ns = namespace(v=0) %}{% for i in items %}{% set ns.v = i %}{% endfor %}{{ ns.v }}", "{{ super }}", "{{ caller }}", "{{ x if y }}",
         ];
         // binder x read-position family: every construct that binds a name, with one read of that name placed before the
